@@ -220,7 +220,12 @@ def run_scenario(case, schedule):
                             pk.data = payload(ti, k, op[1])
                             s0 = world.next_seq()
                             try:
-                                conn.write_packet(pk, force=(kind == 'f'))
+                                # (flags by keyword or by position)
+                                if (ti + k) % 2:
+                                    conn.write_packet(pk, kind == 'f')
+                                else:
+                                    conn.write_packet(pk,
+                                                      force=(kind == 'f'))
                                 res['ops'].append((ti, kind, k, s0,
                                                    world.next_seq(), None))
                             except Exception as ex:
@@ -272,7 +277,10 @@ def run_scenario(case, schedule):
                         elif kind == 'd':
                             s0 = world.next_seq()
                             try:
-                                conn.disconnect(immediate=_imm(op[1]))
+                                if ti % 2:
+                                    conn.disconnect(_imm(op[1]))
+                                else:
+                                    conn.disconnect(immediate=_imm(op[1]))
                                 res['ops'].append((ti, 'd', op[1], s0,
                                                    world.next_seq(), None))
                             except Exception as ex:
